@@ -629,7 +629,9 @@ class TemplateNode(WikiNode):
             parameter_name: Union[str, int] = ""
             if len(parameter_list) == 0:
                 unnamed_parameter_index += 1
-                parameters[unnamed_parameter_index] = ""
+                # a list, so that a later "N=value" for the same index can
+                # be appended to it
+                parameters[unnamed_parameter_index] = [""]
 
             for index, parameter in enumerate(parameter_list):
                 if index == 0:
